@@ -90,6 +90,9 @@ func ModFor(id int64) ModVer {
 		return ModVer{"go.sum", fmt.Sprintf("v0.0.%d", id)}
 	case "example.com/a/v2", "gopkg.in/yaml.v2":
 		return ModVer{name, fmt.Sprintf("v2.0.%d", id)}
+	case "golang.org/x/text":
+		// versions with upper-case letters: escaped in request paths and cache file names, plain in the go.sum lines
+		return ModVer{name, fmt.Sprintf("v1.0.%d-RC1", id)}
 	}
 	return ModVer{name, fmt.Sprintf("v1.0.%d", id)}
 }
